@@ -10,7 +10,7 @@
     §2 `lookup/insert/remove` obey the laws of a nested mapping (what "plain nested dict" means here)
     §3 the transcribed primitives (get / set / del / membership) compute `lookup/insert/remove/has`
     §4 the transcribed composite operations (pop, rename_key_, setdefault, clear) equal the dict replay,
-       for every state, every key and every history (`run_refines_partial`)
+       for every state, every key and every history (`run_refines`)
     §5 the key/item views enumerate exactly the bound paths of the dict, for every flag combination
 -/
 import TdVerif.Model.Key
@@ -21,6 +21,7 @@ import TdVerif.Lemmas.C04Roundtrip
 import TdVerif.Lemmas.C04Split
 import TdVerif.Lemmas.C04Views
 import TdVerif.Lemmas.C04Select
+import TdVerif.Lemmas.C04SelectRef
 
 namespace TdVerif.Props.C04
 open TdVerif TdVerif.Key TdVerif.C04
@@ -245,15 +246,26 @@ theorem split_refines (sets : List (List Path)) (inplace strict : Bool) (kids : 
     (splitT sets inplace strict (.node kids)).2.erase = (specSplit sets inplace strict (.node kids)).2.erase :=
   splitT_refines sets inplace strict _ hw hs
 
-/-- One step. FULL STATEMENT (not yet proved for every operation):
-      ∀ op, InScope t op → step t op ≈ dstep t op      with `dstep` defined for all thirteen operations.
-    Proved here for set / del / pop / rename_key_ / setdefault / clear / empty / unflatten_keys (in place and out of
-    place) / flatten_keys (in place and out of place) / exclude (in place and out of place) / update / split_keys.
-    (`InScope` is `False` for select: its transcription is tied to the code by
-    the correspondence run and judged by the Python dict oracle; select is characterised separately by
-    `select_leaves_exact` / `select_inplace_agrees`, which speak about leaves rather than about the whole state because a
-    non-strict select keeps empty nested tensordicts for keys whose tails are all missing). -/
-theorem refines_partial (kids : Kids) (hw : WF (.node kids)) (op : Op) (hs : InScope (.node kids) op) :
+/-- `select(*keys, strict, inplace)`: for every state and every list of keys (prefixes of one another, repeated, missing,
+running through tensors) the two loops of `_select` — the scan of the first components building `source`, the grouping of
+the nested sub-keys, the recursion into the nested tensordicts, keys only checked because an ancestor is selected as a
+whole, the dry run of an in-place call — compute the fold on plain dicts `out = {}; for p in keys: merge d along p into
+out` (`specSelect` / `selIns`): same entries in the same order, same nested selections (the empty nested dicts a
+non-strict call leaves for missing tails included), the same calls refused, a refused call changes nothing. No side
+condition. -/
+theorem select_refines (keys : List Path) (strict inplace : Bool) (kids : Kids) :
+    (selectT keys strict inplace (.node kids)).1 = (specSelect keys strict inplace (.node kids)).1 ∧
+    (selectT keys strict inplace (.node kids)).2.erase = (specSelect keys strict inplace (.node kids)).2.erase :=
+  selectT_refines keys strict inplace kids
+
+/-- THE PROPERTY, one step — FULL STATEMENT: for every state with unique keys and every one of the thirteen operations
+(set / del / pop / rename_key_ / setdefault / update / select / exclude / split_keys / flatten_keys / unflatten_keys /
+clear / empty, in place and out of place) the transcribed code and the replay on the plain nested dict end in the same
+state and give the same answer (up to the class of the exception). `InScope` only asks that written values are themselves
+well-formed, that a `str` key has one component, that excluded keys are non-empty and — for `pop` with a default and a
+non-strict `split_keys` — that no key runs through a NonTensorData (outside the model, known finding
+C04-nontensor-transparent). -/
+theorem refines (kids : Kids) (hw : WF (.node kids)) (op : Op) (hs : InScope (.node kids) op) :
     (step (.node kids) op).1 = (dstep (.node kids) op).1 ∧
     (step (.node kids) op).2.erase = (dstep (.node kids) op).2.erase := by
   cases op with
@@ -283,7 +295,7 @@ theorem refines_partial (kids : Kids) (hw : WF (.node kids)) (op : Op) (hs : InS
         obtain ⟨hs1, ho⟩ := h
         simp only at hs1 ho; subst hs1
         cases o1 <;> cases o2 <;> simp [okU, Out.erase] at ho ⊢
-  | select _ _ _ => exact absurd hs (by simp [InScope])
+  | select keys strict inplace => exact selectT_refines keys strict inplace kids
   | exclude keys inplace =>
     simp only [step, dstep, excludeT_refines keys inplace kids hw hs]
     cases inplace <;> simp
@@ -386,7 +398,7 @@ theorem dstep_good (kids : Kids) (hw : WF (.node kids)) (op : Op) (hs : InScope 
     | mk t2 o2 =>
       rw [h2] at hk'; simp only at hk'; subst hk'
       cases o2 <;> exact ⟨kids', rfl, hw'⟩
-  | select _ _ _ => exact absurd hs (by simp [InScope])
+  | select keys strict inplace => exact specSelect_good keys strict inplace kids hw
   | exclude keys inplace =>
     simp only [dstep]
     cases inplace
@@ -413,17 +425,17 @@ theorem dstep_good (kids : Kids) (hw : WF (.node kids)) (op : Op) (hs : InScope 
   | split sets inplace strict => exact specSplit_good sets inplace strict kids hw hs
 
 /-- Histories of any length: the transcribed code and the plain nested dict stay in the same state.
-(`_partial`: over the core operations, see `refines_partial`.) -/
-theorem run_refines_partial : ∀ (ops : List Op) (kids : Kids), WF (.node kids) → ScopeAll (.node kids) ops →
+THE PROPERTY, histories — full statement, all thirteen operations. -/
+theorem run_refines : ∀ (ops : List Op) (kids : Kids), WF (.node kids) → ScopeAll (.node kids) ops →
     run (.node kids) ops = drun (.node kids) ops
   | [], _, _, _ => rfl
   | op :: ops, kids, hw, hs => by
-    have h1 := (refines_partial kids hw op hs.1).1
+    have h1 := (refines kids hw op hs.1).1
     obtain ⟨kids', hk, hw'⟩ := dstep_good kids hw op hs.1
     simp only [run, drun, h1, hk]
     have hs2 := hs.2
     rw [hk] at hs2
-    exact run_refines_partial ops kids' hw' hs2
+    exact run_refines ops kids' hw' hs2
 
 example : ScopeAll (.node []) [.set ["a", "b"] (.leaf false 1), .rename ["a", "b"] ["a", "b", "c"] false, .pop ["a"] true, .clear] := by
   simp [ScopeAll, InScope, dstep, specSet, specRename, C04.insert, dget, dset, lookup, has, remove, ddel, throughNt]
